@@ -1,6 +1,7 @@
 package props
 
 import (
+	"io"
 	"github.com/caddyserver/caddy/v2"
 	"bytes"
 	"crypto/tls"
@@ -12,6 +13,7 @@ import (
 	"github.com/mholt/caddy-l4/layer4"
 	"github.com/caddyserver/caddy/v2/modules/caddyhttp/reverseproxy"
 	"github.com/mholt/caddy-l4/modules/l4proxy"
+	"github.com/mholt/caddy-l4/modules/l4tee"
 
 	"verif/sim/simnet"
 	"verif/sim/worlds"
@@ -76,7 +78,7 @@ func runC03(t *testing.T, e *worlds.Env, tier string) (bool, any) {
 		}
 		appLen := tp.LogRange(0, maxLen, "app-len")
 		npeers := 1 + tp.Weighted("npeers", 7, 2, 1)
-		wrapKind := tp.Weighted("wrap", 6, 2, 2, 2)
+		wrapKind := tp.Weighted("wrap", 6, 2, 2, 2, 2)
 		if wrapKind == 3 {
 			// two relay goroutines writing to one tls.Conn contend on its internal
 			// sync.Mutex, which testing/synctest cannot see (the bubble would never
@@ -189,10 +191,23 @@ func runC03(t *testing.T, e *worlds.Env, tier string) (bool, any) {
 		case 2:
 			wrappers = "pp"
 			hd := PPHeader{Version: 1 + tp.Choose(2, "pp-ver"), Src: simnet.TCPAddr("192.0.2.77", 4242), Dst: simnet.TCPAddr("198.51.100.1", 443)}
+			// headers that declare no addresses (v2 LOCAL, v1 UNKNOWN / v2 UNSPEC) are consumed all the same
+			switch tp.Weighted("pp-kind", 4, 1, 1) {
+			case 1:
+				hd.Version, hd.Local = 2, true
+				wrappers = "pp-local"
+			case 2:
+				hd.Unknown = true
+				wrappers = "pp-unknown"
+			}
 			plan.Pre = hd.Encode()
 			model.Pre = plan.Pre
 			model.App = append(append([]byte(nil), plan.Pre...), model.App...)
-			e.Reg.Alias(hd.Src.String(), model)
+			if hd.Local || hd.Unknown {
+				e.Reg.Alias(":0", model) // the library reports ":0" for v1 UNKNOWN
+			} else {
+				e.Reg.Alias(hd.Src.String(), model)
+			}
 			ph := HSpec{Kind: "pp", Name: "pp"}
 			pm := HSpec{Kind: "ppmark", Name: "ppdone"}
 			hs = append(hs, b.Handler(&ph, "x"), b.Handler(&pm, "x"))
@@ -205,6 +220,14 @@ func runC03(t *testing.T, e *worlds.Env, tier string) (bool, any) {
 			hs = append(hs, b.Handler(&thh, "x"))
 			sets = nil
 			sample.Matcher = 0
+		case 4:
+			// tee in front of the proxy: the branch only drains its copy
+			wrappers = "tee"
+			drain := layer4.NextHandlerFunc(func(cx *layer4.Connection, _ layer4.Handler) error {
+				_, _ = io.Copy(io.Discard, cx)
+				return nil
+			})
+			hs = append(hs, l4tee.VerifNew([]layer4.NextHandler{drain}, e.Log))
 		}
 		sample.Wrappers = wrappers
 		sig := "wrap=" + wrappers
@@ -264,7 +287,7 @@ func runC03(t *testing.T, e *worlds.Env, tier string) (bool, any) {
 					return false
 				}
 			}
-			return len(liveWith(e, "srv.1")) == 0
+			return len(c03Left(e, wrappers)) == 0
 		}
 	}, func() {
 		sig := "wrap=" + wrappers
@@ -290,7 +313,7 @@ func runC03(t *testing.T, e *worlds.Env, tier string) (bool, any) {
 		if ex, ok := e.S.ExitAt["srv.1"]; ok {
 			sample.Returned = ex.String()
 		}
-		left := liveWith(e, "srv.1")
+		left := c03Left(e, wrappers)
 		sample.Left = left
 		if off < 0 {
 			return // the proxy handler was never reached (matching failed / client gone)
@@ -443,4 +466,20 @@ func runC03(t *testing.T, e *worlds.Env, tier string) (bool, any) {
 	}
 	_ = rs
 	return nontrivial, sample
+}
+
+// c03Left lists the goroutines of the connection handler that are still alive. The branch
+// goroutine of a tee handler in front of the proxy (the first goroutine the connection handler
+// starts) is not the proxy's: it stays blocked on its pipe whenever the main chain ends without
+// reading to EOF or closing its wrapper - a leak of the tee handler (known finding K02, judged in
+// the listener-wrapper world), not of the relay.
+func c03Left(e *worlds.Env, wrappers string) []string {
+	var out []string
+	for _, g := range liveWith(e, "srv.1") {
+		if wrappers == "tee" && g == "srv.1.1" {
+			continue
+		}
+		out = append(out, g)
+	}
+	return out
 }
